@@ -1,19 +1,30 @@
 """C12 — a correction that cannot use the measurement leaves the belief untouched (DESIGN.md §5 C12).
 
-Every correction class is driven through sequences of steps, each step with its own fault
-pattern (bits: measure predictedMeasure innovation noisecov freeze likelihood; GPF: optionally a
-second six for the likelihood phase), over fault-injecting measurement / likelihood models that log
-EVERY call (also the description / matrix getters).  The extracted model runs at the symbolic
-instance: its outputs are terms over the inputs of the run, so "identity" is the term predG<k>.
-Call logs are compared exactly.  Beliefs are adversarial (unnormalised / positive log-weights,
-non-symmetric indefinite covariances and large means wherever the step must be an identity, N = 1,
-output objects of another component count): identity is bit-level, nothing needs a tolerance."""
+Every correction class is driven through HISTORIES of steps on one object; each step has its own
+  * fault pattern (bits: measure predictedMeasure innovation noisecov freeze likelihood; GPF: optionally a second six
+    for the likelihood phase),
+  * fault payloads (what each failing call hands back NEXT TO its false flag: empty Data, a matrix of another shape, a
+    stale matrix, a std::string; for the noise covariance: the matrix itself, empty, another shape, another SPD matrix;
+    for a user likelihood: Zero(1), empty, another length, the right length),
+  * sizes (state size, measurement size, component / particle count), layout (linear, Euler-circular, quaternion),
+    sensor matrices, skip commands (raw skip(true) / skip(false) that stay in force), output object (the one the
+    previous step wrote, or a new one of unrelated shape and content),
+over fault-injecting measurement / likelihood models that log EVERY call (also the description / matrix getters).
+The subject is obtained fresh, by move construction / move assignment (from a fresh object or one that has already
+run a step) or as an element of a std::vector that has grown; optionally an independent twin object runs a complete
+step inside every callback of the subject's models (hidden state shared between objects); GaussianLikelihood is also
+evaluated from several threads at once.  Numbers carry physical units (homogeneous and coordinate-wise scalings over
+many orders); beliefs of steps that must be identities are adversarial (unnormalised / positive log-weights,
+non-symmetric indefinite covariances, -0.0, denormals, 1e300, inf, NaN).
+The extracted model runs at the symbolic instance: its outputs are terms over the inputs of the run, so "identity" is
+the term predG<k>.  Call logs are compared exactly.  Identity is bit-level, nothing needs a tolerance."""
 import itertools
+import math
 import numpy as np
 from vlib import caseio, gen
 
 ID = "C12"
-COQ_TARGETS = ["C12_Extract.vo", "C12_Proofs.vo", "C12_ProofsKF.vo", "C12_ProofsSym.vo", "C12_Regress.vo", "C12_GPFInst.vo"]
+COQ_TARGETS = ["C12_Extract.vo", "C12_Proofs.vo", "C12_ProofsKF.vo", "C12_ProofsSym.vo", "C12_Regress.vo", "C12_GPFInst.vo", "C12_Payload.vo", "C12_Struct.vo"]
 COQ_PREFIXES = ["C12", "C01", "C08", "C05"]
 EXTRACTED = "C12_model"
 DRIVER = "drv_C12.ml"
@@ -31,8 +42,15 @@ REQUIRED_THEOREMS = ["C12_kf_identity", "C12_kf_identity_any_model", "C12_ukf_id
                      "C12_sukf_likelihood_after_failure_reports_failure", "C12_skipped_correction_makes_no_call",
                      "C12_kf_no_partial_update", "C12_gpf_no_partial_update", "C12_whole_object_is_componentwise",
                      "C12_gpf_inner_failure_not_detected", "C12_gpf_inner_failure_refuted", "C12_gpf_transient_inner_failure_refuted",
-                     "C12_gpf_aliased_refuted"]
+                     "C12_gpf_aliased_refuted",
+                     "C12_kf_payload_step_is_skeleton", "C12_kf_payload_never_read_on_failure", "C12_ukf_payload_step_is_skeleton",
+                     "C12_ukf_payload_never_read_on_failure", "C12_sukf_payload_step_is_skeleton", "C12_sukf_payload_never_read_on_failure",
+                     "C12_likelihood_payload_is_skeleton", "C12_likelihood_payload_reports_failure", "C12_bootstrap_payload_step_is_skeleton",
+                     "C12_bootstrap_payload_failure_custom", "C12_bootstrap_payload_failure_gauss", "C12_gpf_payload_step_is_skeleton",
+                     "C12_gpf_payload_failure", "C12_cast_before_flag_refuted",
+                     "C12_ukf_no_partial_update", "C12_sukf_no_partial_update", "C12_bootstrap_no_partial_update"]
 TIMEOUT = 1500
+SEARCH_CASES = 3000
 
 SITES = "MPINFL"
 GAUSS = ("kf", "ukf_gen", "ukf_add", "sukf")
@@ -49,36 +67,50 @@ for _k in GPF_KINDS:
 PF = set(("gl", "boot_gl", "boot_custom", "sis") + GPF_KINDS)
 GOOD = "000000"
 FLAGS = ("skip", "iskip", "emptyR", "alias", "online", "reduced")
+# payload classes: bfl::Data (measure, predictedMeasure, innovation) / noise covariance / likelihood vector
+DATA_PAY, N_PAY, L_PAY = "estx", "Rest", "zest"
+LIVES = ("fresh", "mc", "mcu", "vec", "ma", "mau")
+# which sizes may change between the calls on one object: the unscented weights are fixed by the constructor
+VARY_N = ("kf", "gl", "boot_gl", "boot_custom", "gpf_kf_gl", "gpf_kf_custom")
+FIXED_M = ("ukf_gen", "gpf_ukfgen_gl", "gpf_ukfgen_custom")
 
 RULE = ("per class every subset of the enumerated failing calls (2^4, 2^5 for gpf_kf_custom) x sequences [p], [good,p], [good,p,good] "
         "(thorough: also [p,good,p]) x 2 (thorough 8) random beliefs; GPF over GaussianLikelihood additionally every pair (subset seen by "
-        "the wrapped correction, subset seen by the likelihood); configurations: skip_ on the driven / wrapped correction, correct(p,p), "
-        "update_weights_online, reduced noise covariance, failing noise-covariance call returning an empty matrix, SUKF size mismatch, "
-        "GPF over KF/UKF(both)/SUKF; SIS: 3-step runs of the real filtering thread over {ok, freeze fails, measure fails}^3 x "
-        "{degenerate, non-degenerate} weights. Beliefs adversarial: log-weights unnormalised and positive, covariances non-symmetric "
-        "indefinite and means 1e6 in steps that must be identities, N = 1..6, output object with junk content and (where the code allows) "
-        "another component count. non-trivial = some call the class honours fails in some step; distinct by (class, flags, pattern "
-        "sequence, n, m, components)")
+        "the wrapped correction, subset seen by the likelihood); every (class, failing call, payload class) incl. several calls failing with "
+        "different payloads; histories on one object with sizes / component counts / layouts / sensor matrices / output objects changing "
+        "between calls; raw skip(on/off) command histories on the driven and the wrapped correction; subjects obtained by move construction, "
+        "move assignment, vector growth (from fresh and from used objects); a twin object running complete steps inside every model "
+        "callback; GaussianLikelihood from three threads; consecutive calls with bit-identical arguments and different patterns; Euler-circular and quaternion layouts (where the step cannot reach C14's finding); "
+        "units over 18 (state) and 12 (measurement) orders, homogeneous and coordinate-wise, underflowing likelihoods; configurations: skip_ on the driven / wrapped "
+        "correction, correct(p,p), update_weights_online, reduced noise covariance, SUKF size mismatch, GPF over KF/UKF(both)/SUKF; SIS: "
+        "runs of the real filtering thread over {ok, freeze fails, measure fails}^3 x {degenerate, non-degenerate} weights, plus "
+        "skip(\"correction\") commands and reset() in the middle of a run. Beliefs adversarial in steps that must be identities (log-weights "
+        "unnormalised and positive, covariances non-symmetric indefinite, -0.0, denormals, 1e300, inf, NaN), N = 1..6, output objects with "
+        "junk content and (where the code allows) another shape. non-trivial = some call the class honours fails in some step; distinct "
+        "by (class, flags, life, twin, pattern sequence, payloads, sizes)")
 TRUSTED_BASE = ["Coq 8.16.1 kernel (coqc); no axioms (Print Assumptions: closed under the global context)",
                 "extraction (ExtrOcamlBasic only), ocaml/drv_C12.ml, ocaml/float_ops.ml, ocaml/caseio.ml",
                 "cpp/h_C12.cpp: the fault-injecting LinearMeasurementModel / LikelihoodModel doubles, their call log, vf::bit_equal, the "
-                "mirror of GPFCorrection's sampling used to pin the known finding",
+                "mirror of GPFCorrection's sampling used to pin the known finding, the twin objects, the move / vector plumbing",
                 "props/C12.py: the table of getter calls (getMeasurementDescription / getInputDescription / getMeasurementMatrix) "
-                "interleaved with the modelled calls is written in Python, not in Coq",
+                "interleaved with the modelled calls, and the effective skip flag after a command history, are written in Python, not in Coq",
                 "the skeletons abstract every numerical routine as a function parameter: what they compute is the subject of C01/C04/C05/C08",
                 "correspondence is sampled: agreement of call logs / identity flags is established on the generated cases only",
                 "ListOps list instance of MatOps for the numerical KF instance (as in C01)"]
 ASSUMPTIONS = ["a measurement model reports unavailability only through the validity flags of measure / predictedMeasure / innovation / "
-               "getNoiseCovarianceMatrix / freeze, a likelihood model only through the flag of likelihood (no exceptions)",
+               "getNoiseCovarianceMatrix / freeze, a likelihood model only through the flag of likelihood (no exceptions of their own)",
                "the fault pattern is a function of the call site per phase (all calls of one site within a phase fail or succeed together)",
-               "predicted and corrected belief are distinct objects (correct(p, p) is exercised and modelled; GPFCorrection does not support it)"]
+               "predicted and corrected belief are distinct objects (correct(p, p) is exercised and modelled; GPFCorrection does not support it)",
+               "a payload delivered next to a TRUE flag has the type the library documents (a MatrixXd); next to a false flag it is arbitrary"]
 
 COUNTS = {"quick": 2, "thorough": 8}      # random beliefs per (class, pattern, sequence form)
 STATS = {"steps_checked_identity": 0, "likelihood_failure_checked_after_success": 0, "finding_steps_pinned_to_model": 0,
-         "empty_noise_covariance_consumed": {}, "sis_failed_freeze_steps": 0}
+         "empty_noise_covariance_consumed": {}, "sis_failed_freeze_steps": 0, "payload_triples": set(), "lives": {}, "twin_cases": 0,
+         "twin_calls": 0, "concurrent_gl": 0, "layouts": {}, "units_decades": set(), "excluded": {}, "resized_histories": 0,
+         "skip_command_histories": 0, "exception_free_steps": 0}
 
 
-# ------------------------------------------------------------------ generation
+# ------------------------------------------------------------------ per-step view of a case
 
 def bits(fail):
     return "".join("1" if s in fail else "0" for s in SITES)
@@ -91,6 +123,62 @@ def bit(q, s):
 def flag(c, name):
     return str(c.meta.get(name, "0")) == "1"
 
+
+def wk(c, name, k, dflt):
+    if c.has(name):
+        w = c.get(name)
+        if k < len(w):
+            return w[k]
+    return dflt
+
+
+class Step(object):
+    __slots__ = ("p", "n", "m", "comps", "skip", "iskip", "garb", "pay", "lay", "quat")
+
+
+def step(c, k):
+    s = Step()
+    s.p = c.get("pat")[k]
+    s.n = int(wk(c, "nsz", k, c.meta["n"]))
+    s.m = int(wk(c, "msz", k, c.meta["m"]))
+    s.comps = int(wk(c, "cmp", k, c.meta["comps"]))
+    s.skip = wk(c, "ske", k, "1" if flag(c, "skip") else "0") == "1"
+    s.iskip = wk(c, "iske", k, "1" if flag(c, "iskip") else "0") == "1"
+    s.pay = wk(c, "pay", k, "eeeez" if flag(c, "emptyR") else "eeeRz")
+    s.garb = s.pay[3] in "es"            # not even the shape of a noise covariance
+    s.lay = wk(c, "lay", k, "-")
+    s.quat = s.lay.endswith(".1")
+    return s
+
+
+def nsteps(c):
+    return int(c.meta["steps"])
+
+
+def unusable(c, k):
+    """(tag, cannot_use, lik_must_fail): which calls the class honours fail in step k.
+    For GPF the pattern may have two phases (wrapped correction / likelihood).  A skipped correction consults nothing."""
+    kind, s = c.kind, step(c, k)
+    p = s.p
+    p1, p2 = p[:6], (p[6:12] if len(p) >= 12 else p[:6])
+    sub = int(c.meta["sub"])
+    if s.skip:
+        return "skipped", False, False
+    if kind.startswith("gpf_"):
+        _, inner, lik = kind.split("_")
+        fi = "" if s.iskip else "".join(x for x in INNER_CONSULTED[inner] if bit(p1, x))
+        if inner == "sukf" and not s.iskip and s.m % sub != 0:
+            fi += "(size)"
+        fl = "".join(x for x in ("L" if lik == "custom" else "MPIN") if bit(p2, x))
+        return "fail=%s/%s" % (fi or "-", fl or "-"), bool(fi or fl), bool(fl)
+    failing = "".join(x for x in CONSULTED[kind] if bit(p1, x))
+    mismatch = kind == "sukf" and s.m % sub != 0
+    tag = "fail=%s" % (failing or ("size-mismatch" if mismatch else "none"))
+    lik_sites = "L" if kind.endswith("_custom") else "MPIN"
+    return tag, bool(failing) or mismatch, any(bit(p1, x) for x in lik_sites)
+
+
+# ------------------------------------------------------------------ generation
 
 def weights(rng, k):
     """log-weights: normalised, unnormalised, or with positive entries"""
@@ -107,42 +195,101 @@ def degenerate_weights(rng, k):
     return np.log(w / w.sum()).reshape(-1, 1)
 
 
-def belief(rng, c, sfx, n, comps, pf, pfx="", adversarial=False, w=None):
+SPECIALS = (-0.0, 5e-324, -1e-310, 2.2250738585072014e-308, 1e300, -1e300, math.inf, -math.inf, math.nan)
+
+
+def sprinkle(rng, a, prob=0.35):
+    """-0.0, denormals, huge values, infinities, NaN in a few entries (steps that must hand the belief back untouched)"""
+    if rng.random() < prob and a.size:
+        a = np.array(a, dtype=float)
+        for _ in range(rng.randint(1, 3)):
+            a[rng.randrange(a.shape[0]), rng.randrange(a.shape[1])] = rng.choice(SPECIALS)
+    return a
+
+
+def is_lin(lay):
+    return lay == "-" or lay.split(".")[1] == "0"
+
+
+def layout_dims(lay, n):
+    """(dim, dim_covariance, linear, circular, quaternion)"""
+    if lay == "-":
+        return n, n, n, 0, False
+    lin, circ, q = (int(x) for x in lay.split("."))
+    return (lin + 4 * circ, lin + 3 * circ, lin, circ, True) if q else (lin + circ, lin + circ, lin, circ, False)
+
+
+def belief(rng, c, sfx, n, comps, pf, pfx="", adversarial=False, w=None, lay="-", dx=None, special=True):
+    dim, dcov, lin, circ, quat = layout_dims(lay, n)
     scale = 1e6 if adversarial and rng.random() < 0.5 else 3.0
-    c.mat(pfx + "means" + sfx, gen.matrix(rng, n, comps, scale))
+    means = gen.matrix(rng, dim, comps, scale)
+    states = gen.matrix(rng, dim, comps, scale)
+    if not adversarial:
+        for a in (means, states):
+            if quat:
+                for q in range(circ):
+                    blk = a[lin + 4 * q: lin + 4 * q + 4, :]
+                    blk /= np.maximum(np.linalg.norm(blk, axis=0), 1e-12)
+            elif circ:
+                a[lin:, :] = (a[lin:, :] + math.pi) % (2 * math.pi) - math.pi
     if adversarial:
-        covs = [gen.matrix(rng, n, n, 2.0) for _ in range(comps)]          # non-symmetric, indefinite
+        covs = [gen.matrix(rng, dcov, dcov, 2.0) for _ in range(comps)]          # non-symmetric, indefinite
     else:
-        covs = [gen.spd(rng, n, 10 ** rng.uniform(0, 3))[0] for _ in range(comps)]
+        covs = [gen.spd(rng, dcov, 10 ** rng.uniform(0, 3))[0] for _ in range(comps)]
+    if dx is not None and not quat:
+        f = np.concatenate([dx[:lin], np.ones(circ)])
+        means = means * f[:, None]; states = states * f[:, None]
+        covs = [f[:, None] * p * f[None, :] for p in covs]
+    wts = weights(rng, comps) if w is None else w
+    if adversarial and special:
+        means, wts, states = sprinkle(rng, means), sprinkle(rng, wts, 0.2), sprinkle(rng, states)
+        covs = [sprinkle(rng, p, 0.2) for p in covs]
+    c.mat(pfx + "means" + sfx, means)
     c.mat(pfx + "covs" + sfx, np.hstack(covs))
-    c.mat(pfx + "weights" + sfx, weights(rng, comps) if w is None else w)
+    c.mat(pfx + "weights" + sfx, wts)
     if pf:
-        c.mat(pfx + "states" + sfx, gen.matrix(rng, n, comps, scale))
+        c.mat(pfx + "states" + sfx, states)
 
 
-def unusable(c, p):
-    """(tag, cannot_use, lik_must_fail): which calls the class honours fail in step pattern p.
-    For GPF the pattern may have two phases (wrapped correction / likelihood).  A skipped correction consults nothing."""
-    kind = c.kind
-    p1, p2 = p[:6], (p[6:12] if len(p) >= 12 else p[:6])
-    if flag(c, "skip"):
-        return "skipped", False, False
-    if kind.startswith("gpf_"):
-        _, inner, lik = kind.split("_")
-        fi = "" if flag(c, "iskip") else "".join(s for s in INNER_CONSULTED[inner] if bit(p1, s))
-        if inner == "sukf" and not flag(c, "iskip") and int(c.meta["m"]) % int(c.meta["sub"]) != 0:
-            fi += "(size)"
-        fl = "".join(s for s in ("L" if lik == "custom" else "MPIN") if bit(p2, s))
-        return "fail=%s/%s" % (fi or "-", fl or "-"), bool(fi or fl), bool(fl)
-    failing = "".join(s for s in CONSULTED[kind] if bit(p1, s))
-    mismatch = kind == "sukf" and int(c.meta["m"]) % int(c.meta["sub"]) != 0
-    tag = "fail=%s" % (failing or ("size-mismatch" if mismatch else "none"))
-    lik_sites = "L" if kind.endswith("_custom") else "MPIN"
-    return tag, bool(failing) or mismatch, any(bit(p1, s) for s in lik_sites)
+def rand_pay(rng, n_classes="RRRt"):
+    return rng.choice(DATA_PAY) + rng.choice(DATA_PAY) + rng.choice(DATA_PAY) + rng.choice(n_classes) + rng.choice(L_PAY)
 
 
-def make_case(rng, cid, kind, pats, dims=None, sub=None, flags=(), outcomps=None):
+def effective(cmds, start):
+    out, cur = [], start
+    for t in cmds:
+        if t == "1":
+            cur = True
+        elif t == "0":
+            cur = False
+        out.append("1" if cur else "0")
+    return out
+
+
+def quat_safe(kind, tagged):
+    """may step (tag, cannot_use, lik_must_fail, skipped) run on a quaternion belief without reaching code whose behaviour on
+    quaternions is C14's subject (mean + K * innovation, SUKF's sigma count, GPF's sampling)"""
+    tag, cannot, _, skipped = tagged
+    if skipped:
+        return True
+    if kind == "kf" or kind.startswith("ukf"):
+        return cannot
+    if kind == "sukf":
+        return cannot and ("M" in tag or "P" in tag.replace("fail=", "") or "size" in tag)
+    if kind.startswith("boot"):
+        return True
+    return False
+
+
+def make_case(rng, cid, kind, pats, dims=None, sub=None, flags=(), outcomps=None, life=None, intr=None, pays=None,
+              vary=None, layout=None, units=None, skc=None, isk=None, far=False, plain=False, same=False):
+    """plain: none of the random decorations (payloads are still drawn).  same: every step gets bit-identical beliefs,
+    measurement and sensor (a cache keyed on the arguments would hit); only the fault pattern differs."""
+    if same:
+        vary, layout = False, "lin"
     pf = kind in PF
+    steps = len(pats)
+    alias = "alias" in flags
     if dims is None:
         n, m = rng.randint(1, 4), rng.randint(1, 3)
         comps = rng.randint(1, 6) if pf else rng.randint(1, 4)
@@ -150,49 +297,230 @@ def make_case(rng, cid, kind, pats, dims=None, sub=None, flags=(), outcomps=None
         n, m, comps = dims
     if sub is None:
         sub = rng.choice([d for d in range(1, m + 1) if m % d == 0])
-    meta = {"n": n, "m": m, "comps": comps, "steps": len(pats), "sub": sub, "seq": "+".join(pats)}
+    # ---- random decorations
+    if life is None:
+        life = "fresh"
+        if not plain and kind != "gl" and rng.random() < 0.12:
+            life = rng.choice([l for l in LIVES[1:] if (kind in PF or l not in ("ma", "mau")) and (steps > 1 or not l.endswith("u"))])
+    if intr is None:
+        intr = 0 if plain else int(rng.random() < 0.12)
+    if vary is None:
+        vary = (not plain) and steps > 1 and not alias and dims is None and "reduced" not in flags and rng.random() < 0.2
+    if layout is None:
+        layout = "lin" if plain or dims is not None else rng.choice(["lin"] * 8 + ["euler", "quat"])
+    if units is None:
+        units = None if plain else rng.choice([None, None, "hom", "hom", "coord"])
+    # ---- sizes per step
+    ns, ms, cs = [n] * steps, [m] * steps, [comps] * steps
+    skc = list(skc) if skc is not None else ["-"] * steps
+    isk = list(isk) if isk is not None else ["-"] * steps
+    if life in ("mcu", "mau") and steps > 1:
+        # what a moved-to object reports BEFORE its first own correction is not C12's subject (the move constructors of
+        # KF/UKF/SUKF/BootstrapCorrection carry neither skip_ nor the members behind getLikelihood, GPFCorrection's carries
+        # both): the first step on the new object is never a skipped one, and the command says so explicitly
+        skc[1] = "0"
+    # SUKFCorrection::getLikelihood reads the sensor's CURRENT noise covariance with the innovations of the last
+    # correction that ran: a skipped correction followed by getLikelihood() under a sensor of another size is a misuse
+    fixed_m = kind in FIXED_M and "online" not in flags or (kind == "sukf" and "1" in effective(skc, "skip" in flags))
+    if vary:
+        for k in range(1, steps):
+            cs[k] = rng.randint(1, 6) if pf else rng.randint(1, 4)
+            if not fixed_m:
+                ms[k] = sub * rng.randint(1, max(1, 4 // sub)) if "sukf" in kind else rng.randint(1, 3)
+            if kind in VARY_N:
+                ns[k] = rng.randint(1, 4)
+    meta = {"n": n, "m": m, "comps": comps, "steps": steps, "sub": sub, "seq": "+".join(pats), "life": life, "intr": intr, "same": int(same)}
     for f in FLAGS:
         meta[f] = 1 if f in flags else 0
-    faulty = any("1" in p for p in pats)
-    meta["risky"] = 1 if (faulty and ("ukf" in kind)) or "emptyR" in flags else 0
     c = caseio.Case(cid, kind, meta)
-    # output object: other component count only where the code under test allows it
-    first_tag, first_cannot, first_lik = unusable(c, pats[0])
-    oc = comps
-    if outcomps is None and "alias" not in flags and rng.random() < 0.4:
-        if kind in ("boot_gl", "boot_custom") or (kind in GAUSS and (first_cannot or "skip" in flags)):
-            oc = comps + rng.choice([1, 2]) if comps == 1 or rng.random() < 0.5 else comps - 1
-    elif outcomps is not None:
-        oc = outcomps
-    c.meta["outcomps"] = oc
     c.word("pat", pats)
-    c.mat("H", gen.matrix(rng, m, n))
-    c.mat("R", gen.spd(rng, m, 10 ** rng.uniform(0, 2))[0])
+    # ---- skip command histories
+    c.word("skc", skc); c.word("isk", isk)
+    c.word("ske", effective(skc, "skip" in flags)); c.word("iske", effective(isk, "iskip" in flags))
+    # ---- payloads
+    if pays is None:
+        pays = [rand_pay(rng, "e" if "emptyR" in flags else "RRRt") for _ in range(steps)]
+    c.word("pay", pays)
+    c.word("garb", ["1" if p[3] != "R" else "0" for p in pays])      # the model: the matrix next to the false flag is not the covariance
+    c.word("lpay", [{"z": 0, "e": 1}.get(p[4], 2) for p in pays])
+    c.word("nsz", ns); c.word("msz", ms); c.word("cmp", cs)
+    tagged = []
+    for k in range(steps):
+        t = unusable(c, k)
+        tagged.append(t + (step(c, k).skip,))
+    # ---- layouts per step (after the tags: quaternion beliefs only where the step cannot reach C14's finding)
+    lays = ["-"] * steps
+    fixed_layout = "ukf" in kind or "sukf" in kind          # unscented weights computed once from the input description
+    if layout == "euler" and kind != "gl":
+        for k in range(steps):
+            # (Euler-circular and linear coordinates have the same number of degrees of freedom: the unscented weights
+            #  fixed by the constructor fit every mix)
+            if ns[k] >= 2 and rng.random() < 0.7:
+                circ = rng.randint(1, ns[k] - 1)
+                lays[k] = "%d.%d.0" % (ns[k] - circ, circ)
+    elif layout == "quat" and kind != "gl":
+        if fixed_layout:
+            if all(quat_safe(kind, t) for t in tagged) and not kind.startswith("gpf"):
+                lin, circ = rng.randint(0, 2), 1
+                ns = [lin + 4 * circ] * steps
+                lays = ["%d.%d.1" % (lin, circ)] * steps
+            else:
+                STATS["excluded"]["quaternion:%s:step-reaches-C14-finding" % kind] = STATS["excluded"].get("quaternion:%s:step-reaches-C14-finding" % kind, 0) + 1
+        elif kind in VARY_N and not kind.startswith("gpf"):
+            for k in range(steps):
+                if quat_safe(kind, tagged[k]) and (k == 0 or not alias):
+                    lin, circ = rng.randint(0, 2), rng.randint(1, 2)
+                    ns[k] = lin + 4 * circ
+                    lays[k] = "%d.%d.1" % (lin, circ)
+        else:
+            STATS["excluded"]["quaternion:%s:sampling-dimension" % kind] = STATS["excluded"].get("quaternion:%s:sampling-dimension" % kind, 0) + 1
+    # (quaternion layouts change the state size)
+    c.ops = [o for o in c.ops if o[1] not in ("nsz",)]
+    c.word("nsz", ns)
+    c.meta["n"] = ns[0]
+    lays = ["%d.0.0" % ns[k] if l == "-" else l for k, l in enumerate(lays)]
+    c.word("lay", lays)
+    quat_any = any(l.endswith(".1") for l in lays)
+    c.word("tpat", ["100000" if l.endswith(".1") else GOOD for l in lays])
+    if kind == "gl" and not plain and rng.random() < 0.6:
+        c.meta["conc"] = 1
+    mcirc = 0
+    if not plain and min(ms) >= 2 and kind != "gl" and not kind.startswith("boot") and rng.random() < 0.1 and not vary:
+        mcirc = 1
+    c.meta["mcirc"] = mcirc
+    # ---- units
+    uL, ue, fx, fy = 1.0, 1.0, np.ones(16), np.ones(16)
+    if units:
+        uL, ue = 10 ** rng.uniform(-9, 9), 10 ** rng.uniform(-6, 6)
+        if units == "coord":
+            fx = np.array([10 ** rng.uniform(-2, 2) for _ in range(16)]); fy = np.array([10 ** rng.uniform(-2, 2) for _ in range(16)])
+    c.meta["uL"], c.meta["ue"], c.meta["units"] = "%.6g" % uL, "%.6g" % ue, units or "none"
+    dxs, dys = uL * fx, ue * fy
+    # ---- sensors
+    per_step_sensor = vary or quat_any or (not plain and not same and steps > 1 and rng.random() < 0.15)
+    def fy_of(mk, lay):
+        if lay.endswith(".1"):
+            return np.ones(mk)
+        return dys[:mk] if not mcirc else np.concatenate([dys[:mk - 1], np.ones(1)])
+    def sensor(mk, nk, lay):
+        dim = layout_dims(lay, nk)[0]
+        H = gen.matrix(rng, mk, dim)
+        R = gen.spd(rng, mk, 10 ** rng.uniform(0, 2))[0]
+        if lay.endswith(".1"):
+            return H, R
+        lin = layout_dims(lay, nk)[2]
+        fxk = np.concatenate([dxs[:lin], np.ones(dim - lin)])
+        fyk = fy_of(mk, lay)
+        return fyk[:, None] * H / fxk[None, :], fyk[:, None] * R * fyk[None, :]
+    if per_step_sensor:
+        for k in range(steps):
+            H, R = sensor(ms[k], ns[k], lays[k])
+            c.mat("H%d" % k, H); c.mat("R%d" % k, R)
+        c.mat("H", c.get("H0")); c.mat("R", c.get("R0"))
+    else:
+        H, R = sensor(m, ns[0], lays[0])
+        c.mat("H", H); c.mat("R", R)
+    # ---- shapes of the output object through the history
+    def other_shape(k):
+        if ns[k] >= 2 and not lays[k].endswith(".1") and rng.random() < 0.4:
+            # the same sizes, only the descriptors differ (linear <-> Euler-circular)
+            return (ns[k], cs[k], "%d.0.0" % ns[k] if not is_lin(lays[k]) else "%d.%d.0" % (ns[k] - 1, 1))
+        nn = rng.randint(1, 5)
+        cc = cs[k] + rng.choice([1, 2]) if cs[k] == 1 or rng.random() < 0.5 else cs[k] - 1
+        ll = "%d.0.0" % nn
+        if nn >= 2 and rng.random() < 0.4:
+            ll = "%d.%d.0" % (nn - 1, 1)
+        elif rng.random() < 0.35:
+            nn, ll = rng.choice([(5, "1.1.1"), (4, "0.1.1"), (ns[k] + 3, "%d.1.1" % (ns[k] - 1))])
+        return (nn, cc, ll)
+    shape = lambda k: (ns[k], cs[k], lays[k])
+    full_copy = []
+    for k in range(steps):
+        tag, cannot, likfail, skipped = tagged[k]
+        if kind in ("boot_gl", "boot_custom"):
+            full_copy.append(True)
+        elif kind.startswith("gpf_"):
+            full_copy.append(skipped)
+        else:
+            full_copy.append(cannot or skipped)
+    fro, fshapes = ["0"] * steps, [None] * steps
+    if kind != "gl":
+        cur = shape(0)
+        if outcomps is not None:
+            cur = (ns[0], outcomps, lays[0])
+        elif not alias and full_copy[0] and rng.random() < 0.4:
+            cur = other_shape(0)
+        oshape = cur
+        for k in range(steps):
+            if alias:
+                break
+            if k > 0:
+                if not full_copy[k] and cur != shape(k):
+                    fro[k], fshapes[k] = "1", shape(k)
+                elif full_copy[k] and not plain and rng.random() < 0.25:
+                    fro[k], fshapes[k] = "1", other_shape(k)
+                elif not plain and rng.random() < 0.08:
+                    fro[k], fshapes[k] = "1", shape(k)
+            cur = shape(k)
+        c.meta["outcomps"] = oshape[1]
+        c.meta["olay"] = oshape[2]
+        c.meta["on"] = oshape[0]
+    c.word("fro", fro)
+    c.word("flay", [fs[2] if fs else "-" for fs in fshapes])
+    oshape_same = kind != "gl" and oshape == shape(0)
+    # ---- data per step
+    faulty = any("1" in p for p in pats)
+    garb_any = any(p[3] in "es" for p in pays)
+    c.meta["risky"] = 1 if (faulty and ("ukf" in kind)) or garb_any or quat_any else 0
+    c.meta["numeric"] = 1 if (kind == "kf" and is_lin(lays[0]) and not step(c, 0).skip and not alias and pays[0][3] not in "es"
+                              and units != "coord" and oshape_same and not mcirc) else 0
     for k, p in enumerate(pats):
-        c.mat("y%d" % k, gen.matrix(rng, m, 1, 5.0))
-        _, cannot, likfail = unusable(c, p)
+        tag, cannot, likfail, skipped = tagged[k]
+        yk = gen.matrix(rng, ms[k], 1, 5.0)
+        if far:
+            yk = yk + 3000.0             # some ninety standard deviations away: every likelihood underflows to 0
+        c.mat("y%d" % k, yk * fy_of(ms[k], lays[k])[:, None])
         # adversarial numbers wherever the step must hand back the predicted belief without using it for an update
-        adv = (likfail if kind.startswith("gpf_") else cannot) or "skip" in flags
-        belief(rng, c, str(k), n, comps, pf, adversarial=adv)
-    belief(rng, c, "", n, oc, pf, "o", adversarial=True)
+        adv = ((likfail if kind.startswith("gpf_") else cannot) or skipped) and not same
+        if same and k > 0:
+            for nm in ("y", "means", "covs", "weights", "states"):
+                if c.has(nm + "0"):
+                    c.mat("%s%d" % (nm, k), c.get(nm + "0"))
+            if fshapes[k] is not None:
+                belief(rng, c, str(k), fshapes[k][0], fshapes[k][1], pf, "f", adversarial=True, lay=fshapes[k][2])
+            continue
+        if kind == "gl":
+            st = gen.matrix(rng, ns[k], cs[k], 3.0) * dxs[:ns[k], None]
+            c.mat("states%d" % k, sprinkle(rng, st) if cannot and not same else st)
+        else:
+            # (correct(p, p) on GPF is not an identity: no zero / non-finite entries that could make the update a numerical no-op)
+            belief(rng, c, str(k), ns[k], cs[k], pf, adversarial=adv, lay=lays[k], dx=dxs, special=not alias)
+        if fshapes[k] is not None:
+            belief(rng, c, str(k), fshapes[k][0], fshapes[k][1], pf, "f", adversarial=True, lay=fshapes[k][2])
+    if kind != "gl":
+        belief(rng, c, "", oshape[0], oshape[1], pf, "o", adversarial=True, lay=oshape[2])
     return c
 
 
-def sis_case(rng, cid, pats, degenerate):
+def sis_case(rng, cid, pats, degenerate, scmd=None):
     n, m = rng.randint(1, 3), rng.randint(1, 2)
     N = rng.randint(4, 8) if degenerate else rng.randint(1, 6)
     meta = {"n": n, "m": m, "comps": N, "steps": len(pats), "sub": 1, "seq": "+".join(pats), "risky": 0, "outcomps": N,
-            "degenerate": int(degenerate)}
+            "degenerate": int(degenerate), "life": "fresh", "intr": 0}
     for f in FLAGS:
         meta[f] = 0
     c = caseio.Case(cid, "sis", meta)
     c.word("pat", pats)
+    scmd = list(scmd) if scmd is not None else ["-"] * len(pats)
+    c.word("scmd", scmd)
+    c.word("ske", effective(["1" if "c1" in t else ("0" if "c0" in t else "-") for t in scmd], False))
+    c.word("rst", ["1" if "r" in t else "0" for t in scmd])
     c.mat("H", gen.matrix(rng, m, n))
     c.mat("R", gen.spd(rng, m, 10 ** rng.uniform(0, 2))[0])
     for k in range(len(pats)):
         c.mat("y%d" % k, gen.matrix(rng, m, 1, 5.0))
     belief(rng, c, "0", n, N, True, w=degenerate_weights(rng, N) if degenerate else None)
-    belief(rng, c, "", n, N, True, "o", adversarial=True)
+    belief(rng, c, "", n, N, True, "o", adversarial=True, special=False)
     return c
 
 
@@ -214,6 +542,7 @@ def subsets(sites):
 def generate(rng, tier):
     cases = []
     reps = COUNTS[tier]
+    hr = 2 if tier == "quick" else 5          # random histories per class and form
 
     def add(kind, seq, **kw):
         cases.append(make_case(rng, len(cases), kind, seq, **kw))
@@ -222,8 +551,8 @@ def generate(rng, tier):
         for sub in subsets(ENUMERATED[kind]):
             p = bits(sub)
             for seq in sequences(p, tier, kind):
-                for _ in range(reps):
-                    add(kind, seq)
+                for r in range(reps):
+                    add(kind, seq, plain=(r == 0))
     # GPF over the shipped GaussianLikelihood, two-phase patterns
     for inner in GPF_INNER:
         kind = "gpf_%s_gl" % inner
@@ -233,7 +562,7 @@ def generate(rng, tier):
                     continue
                 p = bits(s1) + bits(s2)
                 for seq in ([p],) if tier == "quick" else ([p], [GOOD, p]):
-                    add(kind, seq)
+                    add(kind, seq, plain=True)
     # SUKF (alone and inside GPF): measurement size not a multiple of the sub-size
     for kind in ("sukf", "gpf_sukf_gl", "gpf_sukf_custom"):
         for p in [GOOD, bits("M"), bits("P"), bits("I"), bits("N")]:
@@ -250,16 +579,88 @@ def generate(rng, tier):
                     if kind == "gl":
                         continue
                     add(kind, seq, flags=("skip",))                    # skip_ on the driven correction
-                    add(kind, seq, flags=("alias",))                   # correct(p, p)
+                    add(kind, seq, flags=("alias",), plain=True)       # correct(p, p)
                     if kind.startswith("gpf_"):
                         add(kind, seq, flags=("iskip",))               # skip_ on the wrapped correction
                         add(kind, seq, flags=("skip", "iskip"))
-                add(kind, [p], flags=("emptyR",))                      # (false, empty matrix)
-                add(kind, [GOOD, p], flags=("emptyR",))
+                add(kind, [p], flags=("emptyR",), plain=True)          # (false, empty matrix)
+                add(kind, [GOOD, p], flags=("emptyR",), plain=True)
             add("ukf_gen", [p], flags=("online",)); add("ukf_gen", [GOOD, p, GOOD], flags=("online",))
             for seq in ([p], [GOOD, p, GOOD]):
                 m, sub = rng.choice([(2, 1), (3, 1), (2, 2), (3, 3)])
                 add("sukf", seq, dims=(rng.randint(1, 4), m, rng.randint(1, 4)), sub=sub, flags=("reduced",))
+    # ---- fault payloads: every (class, failing call, payload class), alone, after a success, and several calls failing
+    #      together with different payloads
+    for kind in KINDS:
+        sites = ENUMERATED[kind]
+        for s in sites:
+            classes = {"N": N_PAY, "L": L_PAY}.get(s, DATA_PAY)
+            for cl in classes:
+                for seq in ([bits(s)], [GOOD, bits(s)], [GOOD, bits(s), GOOD]):
+                    if kind == "gl" and len(seq) == 3:
+                        continue
+                    pay = list(rand_pay(rng)); pay["MPINL".index(s)] = cl
+                    add(kind, seq, pays=["".join(pay)] * len(seq), plain=(tier == "quick" and len(seq) == 3))
+        for _ in range(reps * 2):
+            many = bits(rng.sample(sites, min(len(sites), rng.randint(2, 3))))
+            add(kind, [GOOD, many] if kind == "gl" else [GOOD, many, GOOD],
+                pays=[rand_pay(rng, "RRtt") for _ in range(2 if kind == "gl" else 3)])
+    # ---- how the subject was obtained
+    for kind in KINDS:
+        if kind == "gl":
+            continue
+        for life in LIVES[1:]:
+            if life in ("ma", "mau") and kind not in PF:
+                continue
+            for p in [bits("M"), bits("P"), bits("I"), bits("N"), bits("L")]:
+                add(kind, [GOOD, p, GOOD], life=life)
+                if tier == "thorough":
+                    add(kind, [p, GOOD, p], life=life)
+    # ---- a twin object runs complete steps inside every callback of the subject's models
+    for kind in KINDS:
+        for p in [GOOD, bits("M"), bits("P"), bits("I"), bits("N"), bits("L")]:
+            for _ in range(reps // 2):
+                add(kind, [p], intr=1); add(kind, [GOOD, p] if kind == "gl" else [GOOD, p, GOOD], intr=1)
+    # ---- histories: sizes / component counts / sensors / layouts / output objects change between calls
+    for kind in KINDS:
+        for _ in range(hr * 6):
+            ps = [bits(rng.sample(ENUMERATED[kind], rng.choice([0, 1, 1, 2]))) for _ in range(rng.randint(3, 5))]
+            add(kind, ps[:3] if kind == "gl" else ps, vary=True)
+        if kind == "gl":
+            continue
+        for lay in ("euler", "quat"):
+            for _ in range(hr * 4):
+                ps = [bits(rng.sample(ENUMERATED[kind], rng.choice([1, 1, 2]))) for _ in range(rng.randint(1, 3))]
+                add(kind, ps, layout=lay)
+            for _ in range(hr * 2 if lay == "euler" else 0):
+                ps = [bits(rng.sample(ENUMERATED[kind], rng.choice([0, 1, 1]))) for _ in range(rng.randint(2, 4))]
+                add(kind, ps, layout=lay)
+            for p in [bits("M"), bits("P"), bits("I")]:
+                add(kind, [GOOD, p] if lay == "euler" else [p, p], layout=lay)
+    # ---- consecutive calls whose arguments are bit-identical (beliefs, measurement, sensor): only the pattern differs
+    for kind in KINDS:
+        for x in ENUMERATED[kind]:
+            add(kind, [GOOD, bits(x)], same=True); add(kind, [bits(x), GOOD], same=True)
+            if kind != "gl":
+                add(kind, [GOOD, bits(x), GOOD], same=True)
+    # ---- raw skip command histories (commands stay in force; not matched pairs)
+    cmds = ["-", "-", "1", "0"]
+    for kind in KINDS:
+        if kind == "gl":
+            continue
+        for _ in range(hr * 6):
+            L = rng.randint(3, 5)
+            ps = [bits(rng.sample(ENUMERATED[kind], rng.choice([0, 1, 1, 2]))) for _ in range(L)]
+            skc = [rng.choice(cmds) for _ in range(L)]
+            isk = [rng.choice(cmds) for _ in range(L)] if kind.startswith("gpf_") else None
+            add(kind, ps, skc=skc, isk=isk, flags=rng.choice([(), (), ("skip",)]))
+    # ---- magnitudes: units over many orders, likelihoods that underflow
+    for kind in KINDS:
+        for un in ("hom", "coord"):
+            for p in [GOOD, bits("M"), bits("I"), bits("N"), bits("L")]:
+                add(kind, [GOOD, p], units=un)
+        for p in [GOOD, bits("N"), bits("L")]:
+            add(kind, [GOOD, p] if kind == "gl" else [GOOD, p, GOOD], far=True, units=rng.choice([None, "hom"]))
     # SIS: the real filtering thread, 3 steps
     three = [GOOD, bits("F"), bits("M")]
     for _ in range(1 if tier == "quick" else 6):
@@ -268,7 +669,20 @@ def generate(rng, tier):
                 for d in three:
                     for deg in (False, True):
                         cases.append(sis_case(rng, len(cases), [a, b, d], deg))
+    # SIS: skip("correction") commands that stay in force and reset() in the middle of a run
+    for _ in range(60 if tier == "quick" else 400):
+        L = rng.randint(3, 5)
+        ps = [rng.choice(three) for _ in range(L)]
+        sc = [rng.choice(["-", "-", "c1", "c0", "r", "c1r"]) for _ in range(L)]
+        cases.append(sis_case(rng, len(cases), ps, rng.random() < 0.5, scmd=sc))
     return cases
+
+
+def search_cases(rng):
+    """The widened search: a random sample over ALL classes and history forms of the thorough generator."""
+    cs = generate(rng, "thorough")
+    rng.shuffle(cs)
+    return cs[:SEARCH_CASES]
 
 
 # ------------------------------------------------------------------ evaluation
@@ -287,7 +701,7 @@ def no_getters(l):
     return [t for t in (l or []) if t not in GETTERS]
 
 
-def inner_full(inner, p1, c, skipped):
+def inner_full(inner, p1, c, k, skipped):
     """Calls made by a Gaussian correction under the phase-1 pattern p1, getters included (this table is Python, not Coq;
     with the getters removed it must equal the model's log, which is checked)."""
     if skipped:
@@ -318,7 +732,8 @@ def inner_full(inner, p1, c, skipped):
             if not P:
                 l += ["N", "I"]
         return l
-    m, sub, comps = int(c.meta["m"]), int(c.meta["sub"]), int(c.meta["comps"])
+    s = step(c, k)
+    m, sub, comps = s.m, int(c.meta["sub"]), s.comps
     l = ["M", "D"]
     if not M and m % sub == 0:
         l.append("P")
@@ -329,14 +744,18 @@ def inner_full(inner, p1, c, skipped):
     return l
 
 
+def inner_of(c):
+    kind = c.kind
+    return {"kf": "kf", "ukf_gen": "ukfgen", "ukf_add": "ukfadd", "sukf": "sukf"}.get(kind) or kind.split("_")[1]
+
+
 def expected_log(c, k, model_log):
     """The exact call list of step k, getters included, or a string describing an inconsistency of the getter table."""
-    kind, p = c.kind, c.get("pat")[k]
-    if flag(c, "skip"):
+    kind, s = c.kind, step(c, k)
+    if s.skip:
         return []
     if kind in GAUSS or kind.startswith("gpf_"):
-        inner = {"kf": "kf", "ukf_gen": "ukfgen", "ukf_add": "ukfadd", "sukf": "sukf"}.get(kind) or kind.split("_")[1]
-        full = inner_full(inner, p[:6], c, kind.startswith("gpf_") and flag(c, "iskip"))
+        full = inner_full(inner_of(c), s.p[:6], c, k, kind.startswith("gpf_") and s.iskip)
         ng = no_getters(full)
         if model_log[:len(ng)] != ng:
             return "getter table inconsistent with the model: %s vs %s" % (ng, model_log)
@@ -345,20 +764,21 @@ def expected_log(c, k, model_log):
 
 
 def garbage_step(c, model):
-    """First step in which an EMPTY noise covariance, returned next to a false flag, is read by a caller that ignores the
-    flag (UKFCorrection.cpp:114 generic, sigma_point.cpp:313 additive, SUKFCorrection.cpp:200): from there on the
-    implementation's behaviour is not predicted here (size mismatch on an empty matrix: C14's business).  The rule follows
-    the model's call order: the read happens iff the model's log of that step contains N made by such a caller."""
-    if not flag(c, "emptyR") or flag(c, "skip"):
-        return None
+    """First step in which a noise covariance that is NOT one (empty / another shape), returned next to a false flag, is read
+    by a caller that ignores the flag (UKFCorrection.cpp:114 generic, sigma_point.cpp:313 additive, SUKFCorrection.cpp:200): from
+    there on the implementation's behaviour is not predicted here (size mismatch: C14's business).  The rule follows the
+    model's call order: the read happens iff the model's log of that step contains N made by such a caller."""
     kind = c.kind
     inner = {"ukf_gen": "ukfgen", "ukf_add": "ukfadd", "sukf": "sukf"}.get(kind)
-    if kind.startswith("gpf_") and not flag(c, "iskip"):
+    if kind.startswith("gpf_"):
         inner = kind.split("_")[1]
     if inner not in ("ukfgen", "ukfadd", "sukf"):
         return None
-    for k, p in enumerate(c.get("pat")):
-        if bit(p[:6], "N") and "N" in inner_full(inner, p[:6], c, False):
+    for k in range(nsteps(c)):
+        s = step(c, k)
+        if not s.garb or s.skip or (kind.startswith("gpf_") and s.iskip):
+            continue
+        if bit(s.p[:6], "N") and "N" in inner_full(inner, s.p[:6], c, k, False):
             return k
     return None
 
@@ -375,13 +795,26 @@ def crash_point(impl):
     return (k, "correct")
 
 
+def thrown(impl, kmax):
+    """[(step, where, text)] of exceptions that escaped correct() / getLikelihood()"""
+    out = []
+    for k in range(kmax):
+        for w in ("correct", "lik"):
+            if impl.get("threw_%s%d" % (w, k)) == 1:
+                out.append((k, w, " ".join(impl.get("threw_what%d" % k) or ["?"])))
+    return out
+
+
 def compare_sis(c, impl, model):
     d = []
-    if impl.get("steps_run") != int(c.meta["steps"]):
+    if impl.get("steps_run") != nsteps(c):
         d.append("steps run: %s" % impl.get("steps_run"))
         return d
-    for k in range(int(c.meta["steps"])):
+    for k in range(nsteps(c)):
         ks = str(k)
+        if impl.get("threw_correct" + ks) == 1:
+            d.append("step %d: exception in the filtering step: %s" % (k, impl.get("threw_what" + ks)))
+            break
         ie = [t for t in word(impl, "events" + ks) if t not in GETTERS]
         me = [t for t in word(model, "events" + ks) if t != "normalise"]
         if ie != me:
@@ -396,18 +829,31 @@ def compare_sis(c, impl, model):
     return d
 
 
+def horizon(c, impl, model):
+    """(last, got, gstep): steps [0, last) are predicted; got = crash point; gstep = first garbage step"""
+    steps = nsteps(c)
+    gstep, got = garbage_step(c, model), crash_point(impl)
+    last = steps if got is None else got[0] + (1 if got[1] == "lik" else 0)
+    if gstep is not None:
+        last = min(last, gstep)              # from the garbage step on nothing is predicted
+    ab = impl.get("aborted_at")
+    if ab is not None:
+        last = min(last, ab)
+    return last, got, gstep
+
+
 def compare(c, impl, model):
     d = []
     kind = c.kind
     if kind == "sis":
         return compare_sis(c, impl, model)
-    steps = int(c.meta["steps"])
-    gstep, got = garbage_step(c, model), crash_point(impl)
+    last, got, gstep = horizon(c, impl, model)
     if got is not None and (gstep is None or got[0] < gstep):
         d.append("crash point: impl %s (%s %s), the model predicts none" % (got, impl.get("crash_kind"), impl.get("crash_cond")))
-    last = steps if got is None else got[0] + (1 if got[1] == "lik" else 0)
-    if gstep is not None:
-        last = min(last, gstep)              # from the garbage step on nothing is predicted
+    for k, w, what in thrown(impl, nsteps(c)):
+        if gstep is None or k < gstep:
+            d.append("step %d: an exception escaped %s: %s; the model predicts none"
+                     % (k, ("GaussianLikelihood::likelihood()" if kind == "gl" else "correct()") if w == "correct" else "getLikelihood()", what))
     lik_terms = {}
     alias = flag(c, "alias")
     for k in range(last):
@@ -438,24 +884,36 @@ def compare(c, impl, model):
             d.append("lik%s: model says Zero(1), impl %s" % (ks, None if lv is None else lv.shape))
         if lt == "empty" and not (lv is not None and lv.size == 0):
             d.append("lik%s: model says empty, impl %s" % (ks, None if lv is None else lv.shape))
+        if lt == "likJunk" and impl.get("lik_valid" + ks) == 0 and not step(c, k).skip:
+            want = step(c, k).comps + (1 if step(c, k).pay[4] == "s" else 0)
+            if lv is None or lv.size != want:
+                d.append("lik%s: the failing likelihood model returned %d values next to its flag, getLikelihood hands back %s"
+                         % (ks, want, None if lv is None else lv.size))
         if lt in lik_terms and lv is not None:
             lv0 = lik_terms[lt]
-            if lv0.shape != lv.shape or lv0.tobytes() != lv.tobytes():
+            # (the term language names the sensor of a step through y<k> only: with a sensor that changes between the
+            #  steps equal terms need not be equal values)
+            if lt != "likJunk" and not c.has("R1") and (lv0.shape != lv.shape or lv0.tobytes() != lv.tobytes()):
                 if not (np.isnan(lv0).all() and np.isnan(lv).all()):
                     d.append("lik%s: model term equals an earlier step's, impl values differ" % ks)
         elif lv is not None:
             lik_terms[lt] = lv
-    if kind == "kf" and impl.has("mean0") and model.has("num_mean") and not alias:
-        # the numerical KF instance of the same skeleton, step 0: identity is exact, the update to rounding
+    if impl.has("conc_ok") and impl.get("conc_ok") != 1:
+        d.append("concurrent evaluations of GaussianLikelihood::likelihood differ from the sequential ones")
+    if kind == "kf" and flag(c, "numeric") and impl.has("mean0") and model.has("num_mean") and last > 0:
+        # the numerical KF instance of the same skeleton, step 0: identity is exact, the update to rounding;
+        # the tolerance is carried by the state unit L (means: L, covariances: L^2, weights: 1)
         p0 = c.get("pat")[0]
         exact = any(bit(p0, s) for s in "MPIN")
-        tol = 0.0 if exact else 1e-9
-        for a, b in (("mean0", "num_mean"), ("cov0", "num_cov"), ("w0", "num_w")):
+        uL = float(c.meta.get("uL", 1.0))
+        for a, b, unit in (("mean0", "num_mean", uL), ("cov0", "num_cov", uL * uL), ("w0", "num_w", 1.0)):
             x, y = impl.get(a), model.get(b)
             y = y.reshape(x.shape) if y.size == x.size else y
-            scale = max(1.0, float(np.max(np.abs(x)))) * 1e3
-            if x.shape != y.shape or not caseio.close(x, y, tol * scale, 0.0):
-                d.append("%s vs numerical model: max diff %.3g" % (a, caseio.maxdiff(x, y)))
+            fin = x[np.isfinite(x)]
+            scale = max(unit, float(np.max(np.abs(fin))) if fin.size else 0.0)
+            tol = 0.0 if exact else 1e-6 * scale
+            if x.shape != y.shape or not caseio.close(x, y, tol, 0.0):
+                d.append("%s vs numerical model: max diff %.3g (tolerance %.3g)" % (a, caseio.maxdiff(x, y), tol))
         if model.get("num_lik_valid") != impl.get("lik_valid0"):
             d.append("lik_valid0 vs numerical model")
         elif model.get("num_lik_valid") == 1 and not caseio.close(impl.get("lik0"), model.get("num_lik"), 1e-300, 1e-6):
@@ -466,8 +924,12 @@ def compare(c, impl, model):
 def oracle_sis(c, impl):
     v = []
     pats = c.get("pat")
-    for k in range(min(int(c.meta["steps"]), impl.get("steps_run") or 0)):
+    for k in range(min(nsteps(c), impl.get("steps_run") or 0)):
         ks, p = str(k), pats[k]
+        if impl.get("threw_correct" + ks) == 1:
+            v.append(("C12:sis:exception-in-filtering-step:%s" % ("freeze-fails" if bit(p, "F") else ("measure-fails" if bit(p, "M") else "no-fault")),
+                      "step %d: %s" % (k, " ".join(impl.get("threw_what" + ks) or ["?"]))))
+            break
         if not bit(p, "F"):
             continue
         STATS["sis_failed_freeze_steps"] += 1
@@ -481,31 +943,76 @@ def oracle_sis(c, impl):
     return v
 
 
+def account(c, impl, last):
+    """coverage counters of the evidence"""
+    STATS["lives"][c.meta.get("life", "fresh")] = STATS["lives"].get(c.meta.get("life", "fresh"), 0) + 1
+    if str(c.meta.get("intr", 0)) == "1":
+        STATS["twin_cases"] += 1
+        STATS["twin_calls"] += impl.get("intruder_calls") or 0
+    if impl.has("conc_ok"):
+        STATS["concurrent_gl"] += 1
+    if c.meta.get("units", "none") != "none":
+        STATS["units_decades"].add((int(math.floor(math.log10(float(c.meta["uL"])))), int(math.floor(math.log10(float(c.meta["ue"]))))))
+    sizes = set()
+    for k in range(last):
+        s = step(c, k)
+        sizes.add((s.n, s.m, s.comps))
+        lay = "linear" if is_lin(s.lay) else ("quaternion" if s.quat else "euler")
+        STATS["layouts"][lay] = STATS["layouts"].get(lay, 0) + 1
+        if not s.skip:
+            for x in "MPINL":
+                if bit(s.p[:6], x) or (len(s.p) >= 12 and bit(s.p[6:12], x)):
+                    STATS["payload_triples"].add((c.kind, x, s.pay["MPINL".index(x)]))
+    for k in range(last, nsteps(c)):
+        s = step(c, k)
+        if s.garb and bit(s.p[:6], "N"):
+            STATS.setdefault("deferred_triples", set()).add((c.kind, "N", s.pay[3]))
+    if len(sizes) > 1:
+        STATS["resized_histories"] += 1
+    if str(c.meta.get("same", 0)) == "1":
+        STATS["same_argument_histories"] = STATS.get("same_argument_histories", 0) + 1
+    if c.has("skc") and (any(t != "-" for t in c.get("skc")) or (c.has("isk") and any(t != "-" for t in c.get("isk")))):
+        STATS["skip_command_histories"] += 1
+
+
 def oracle(c, impl, model):
     """The property evaluated on the implementation alone (the model is used only to pin the known finding)."""
     v = []
     kind, pats = c.kind, c.get("pat")
     if kind == "sis":
         return oracle_sis(c, impl)
-    got = crash_point(impl)
-    gstep = garbage_step(c, model)
-    steps = int(c.meta["steps"])
-    last = steps if got is None else got[0] + (1 if got[1] == "lik" else 0)
+    steps = nsteps(c)
+    last, got, gstep = horizon(c, impl, model)
     if gstep is not None:
         key = "%s:%s" % (kind, "aborted" if got is not None and got[0] >= gstep else "ran-on")
         STATS["empty_noise_covariance_consumed"][key] = STATS["empty_noise_covariance_consumed"].get(key, 0) + 1
-        last = min(last, gstep)
+    account(c, impl, last)
+    # an exception that escapes correct() / getLikelihood(): the corrected belief was never set
+    for k, w, what in thrown(impl, steps):
+        if gstep is not None and k >= gstep:
+            continue
+        tag = unusable(c, k)[0]
+        s = step(c, k)
+        pays = "".join(s.pay["MPINL".index(x)] for x in "MPINL" if bit(s.p[:6], x) or (len(s.p) >= 12 and bit(s.p[6:12], x))) or "-"
+        where = ("likelihood" if kind == "gl" else "correct") if w == "correct" else "getLikelihood"
+        v.append(("C12:%s:exception-escapes-%s:%s" % (kind, where, tag),
+                  "step %d (%s, payload classes of the failing calls: %s): %s() let an exception escape: %s; corrected belief %s the predicted one"
+                  % (k, tag, pays, where, what, "is" if impl.get("ident%d" % k) == 1 else "is NOT")))
+    if impl.has("conc_ok") and impl.get("conc_ok") != 1:
+        v.append(("C12:gl:concurrent-evaluations-interfere", "GaussianLikelihood::likelihood evaluated from one thread per step (patterns %s) "
+                  "does not return what the sequential evaluations return" % "+".join(pats)))
     alias_gpf = flag(c, "alias") and kind.startswith("gpf_")
     had_success = False
     for k in range(last):
         ks, p = str(k), pats[k]
-        tag, cannot_use, lik_must_fail = unusable(c, p)
+        tag, cannot_use, lik_must_fail = unusable(c, k)
         full = got is None or k < got[0]
+        STATS["exception_free_steps"] += 1
         if cannot_use:
             STATS["steps_checked_identity"] += 1
             if kind == "gl":
                 if impl.get("lik_valid" + ks) != 0:
-                    v.append(("C12:gl:value-reported:%s" % tag, "GaussianLikelihood reported a value"))
+                    v.append(("C12:gl:value-reported:%s" % tag, "step %d: GaussianLikelihood reported a value" % k))
                 continue
             if impl.get("ident" + ks) != 1:
                 parts = [q for q in ("mean", "cov", "w", "shape", "state") if impl.get("ident_%s%s" % (q, ks)) == 0]
@@ -518,9 +1025,11 @@ def oracle(c, impl, model):
                     if ok and model is not None:
                         ok = ("gpfW(" in model.get("g" + ks)[0]) and ("sampleS(" in model.get("s" + ks)[0]) and impl.get("lik_valid" + ks) == 1
                     if ok and k == 0 and impl.has("mirror_state_diff0"):
+                        # same operations on the same numbers: bit-equal, or equal to rounding relative to the magnitudes involved
                         sd, wd = impl.get("mirror_state_diff0"), impl.get("mirror_w_diff0")
-                        scale = max(1.0, float(np.max(np.abs(impl.get("state0")))))
-                        ok = sd <= 1e-9 * scale and wd <= 1e-7 * max(1.0, float(np.max(np.abs(impl.get("w0")))))
+                        spread = impl.get("mirror_spread0") or max(1.0, float(np.max(np.abs(impl.get("state0")))))
+                        wmax = float(np.max(np.abs(impl.get("w0")))) if impl.get("w0").size else 1.0
+                        ok = (impl.get("mirror_state_bits0") == 1 or sd <= 1e-9 * spread) and (impl.get("mirror_w_bits0") == 1 or wd <= 1e-7 * max(1.0, wmax))
                         STATS["finding_steps_pinned_to_model"] += 1
                     if ok:
                         sig = "C12:%s:belief-changed:wrapped-correction-fails+likelihood-valid" % kind
@@ -544,11 +1053,11 @@ def oracle(c, impl, model):
             had_success = True
     if got is not None and (gstep is None or got[0] < gstep):
         k, phase = got
-        p = pats[min(k, len(pats) - 1)]      # k == len(pats): the process ended abnormally after the last step (corrupted heap)
+        kk = min(k, len(pats) - 1)           # k == len(pats): the process ended abnormally after the last step (corrupted heap)
         if phase == "lik" and kind in GAUSS:
             v.append(("C12:%s:stale-likelihood:getLikelihood-aborts" % kind,
                       "step %d (%s): getLikelihood() ended abnormally: %s %s at %s"
-                      % (k, unusable(c, p)[0], impl.get("crash_kind"), impl.get("crash_cond"), impl.get("crash_where"))))
+                      % (k, unusable(c, kk)[0], impl.get("crash_kind"), impl.get("crash_cond"), impl.get("crash_where"))))
         else:
             v.append(("C12:%s:crash:%s" % (kind, impl.get("crash_entry", ["?"])[0]),
                       "step %d: %s %s at %s" % (k, impl.get("crash_kind"), impl.get("crash_cond"), impl.get("crash_where"))))
@@ -557,7 +1066,7 @@ def oracle(c, impl, model):
 
 def on_crash(c, info, model):
     """A case that is not run in a child and ends the process."""
-    if flag(c, "emptyR") and garbage_step(c, model) is not None:
+    if c.kind != "sis" and garbage_step(c, model) is not None:
         STATS["empty_noise_covariance_consumed"]["%s:process-ended" % c.kind] = STATS["empty_noise_covariance_consumed"].get("%s:process-ended" % c.kind, 0) + 1
         return []
     return None
@@ -566,9 +1075,11 @@ def on_crash(c, info, model):
 def nontrivial(c):
     pats = c.get("pat")
     if c.kind == "sis":
-        return ("sis", c.meta["seq"], c.meta["degenerate"], c.meta["comps"]) if any(bit(p, "F") for p in pats) else None
-    if any(unusable(c, p)[1] for p in pats):
-        return (c.kind, tuple(f for f in FLAGS if flag(c, f)), c.meta["seq"], c.meta["n"], c.meta["m"], c.meta["comps"])
+        return ("sis", c.meta["seq"], c.meta["degenerate"], c.meta["comps"], tuple(c.get("scmd")) if c.has("scmd") else ()) if any(bit(p, "F") for p in pats) else None
+    if any(unusable(c, k)[1] for k in range(len(pats))):
+        return (c.kind, tuple(f for f in FLAGS if flag(c, f)), c.meta.get("life", "fresh"), str(c.meta.get("intr", 0)), c.meta["seq"],
+                tuple(c.get("pay")) if c.has("pay") else (), c.meta["n"], c.meta["m"], c.meta["comps"],
+                tuple(c.get("cmp")) if c.has("cmp") else (), tuple(c.get("lay")) if c.has("lay") else ())
     return None
 
 
@@ -579,12 +1090,34 @@ def histogram(cases):
         for f in FLAGS:
             if flag(c, f):
                 fl[f] = fl.get(f, 0) + 1
+    trip = sorted(STATS["payload_triples"])
+    per_site = {}
+    for kd, s, cl in trip:
+        per_site.setdefault(s, set()).add(cl)
+    wanted = set((kd, x, cl) for kd in KINDS for x in ENUMERATED[kd] for cl in {"N": N_PAY, "L": L_PAY}.get(x, DATA_PAY))
+    kinds_run = set(c.kind for c in cases)
+    deferred = STATS.get("deferred_triples", set()) - STATS["payload_triples"]
+    missing = sorted(t for t in wanted if t not in STATS["payload_triples"] and t not in deferred and t[0] in kinds_run)
     return {"class": h, "flags": fl,
             "steps_with_unusable_measurement_checked": STATS["steps_checked_identity"],
             "getLikelihood_failure_checked_after_an_earlier_success": STATS["likelihood_failure_checked_after_success"],
             "known_finding_steps_pinned_to_the_model_prediction": STATS["finding_steps_pinned_to_model"],
             "sis_failed_freeze_steps_checked": STATS["sis_failed_freeze_steps"],
-            "deferred_to_C14_empty_noise_covariance_consumed_by_flag_ignoring_callers": STATS["empty_noise_covariance_consumed"]}
+            "fault_payloads": {"class_x_failing_call_x_payload_class_exercised": len(trip),
+                               "of_the_enumerated_fault_points_x_payload_classes": len(wanted),
+                               "enumerated_fault_point_x_payload_class_not_exercised": ["%s:%s:%s" % t for t in missing],
+                               "run_but_deferred_to_C14_flag_ignoring_caller_reads_a_matrix_of_wrong_shape": ["%s:%s:%s" % t for t in sorted(deferred)],
+                               "payload_classes_per_failing_call": {s: "".join(sorted(v)) for s, v in sorted(per_site.items())}},
+            "subject_obtained_by": STATS["lives"],
+            "callback_reentrancy": {"cases_with_a_twin_object": STATS["twin_cases"], "complete_twin_steps_run_inside_callbacks": STATS["twin_calls"]},
+            "gaussian_likelihood_evaluated_concurrently": STATS["concurrent_gl"],
+            "steps_per_layout": STATS["layouts"],
+            "histories_with_sizes_changing_between_calls": STATS["resized_histories"],
+            "histories_with_raw_skip_commands": STATS["skip_command_histories"],
+            "histories_of_calls_with_bit_identical_arguments": STATS.get("same_argument_histories", 0),
+            "units_decades_state_x_measurement": len(STATS["units_decades"]),
+            "excluded_from_generation_and_counted": STATS["excluded"],
+            "deferred_to_C14_noise_covariance_of_wrong_shape_consumed_by_flag_ignoring_callers": STATS["empty_noise_covariance_consumed"]}
 
 
 LEVEL_TEXT = ("Proof: the control skeletons of KFCorrection, UKFCorrection (both constructors, with the measurement overloads of the unscented "
@@ -593,8 +1126,11 @@ LEVEL_TEXT = ("Proof: the control skeletons of KFCorrection, UKFCorrection (both
               "the arguments of the call, every belief and every numerical routine, to return the whole predicted object (component-wise: "
               "every mean, covariance, weight, state, shape field) whenever a call the class honours reports unavailability, with the exact "
               "call log, and getLikelihood to report failure after any such correction; GPF/Bootstrap: identity iff the likelihood fails; "
-              "with no fault the KF skeleton is C01's kf_correct. Refuted with witnesses and registered as known finding: GPFCorrection does "
+              "with no fault the KF skeleton is C01's kf_correct. The flag-and-payload form of the sensor interface is modelled too "
+              "(C12_Payload): whatever a failing call hands back next to its false flag is never cast or read, no exception can arise on a "
+              "failing path, and the payload-level steps are the option-level skeletons whenever the payloads delivered with a true flag "
+              "are matrices. Refuted with witnesses and registered as known finding: GPFCorrection does "
               "not notice that the wrapped correction could not use the measurement when the likelihood model reports a value.")
 LEVEL_NOTE = ("Trusted: Coq kernel, extraction + driver, the harness's fault-injecting doubles, the Python table of getter calls; numerical "
               "routines are abstract here; the skeletons are proved to be C01's kf_correct and C08's gpf_correct when instantiated with their routines, the corresponding links to C04 (UKF) and C05 (SUKF) are not proved; the tie to the code is "
-              "sampled over all subsets of failing calls per class x adversarial beliefs x call sequences x configurations.")
+              "sampled over all subsets of failing calls per class x payload classes x adversarial beliefs x call histories x configurations.")
